@@ -34,6 +34,11 @@ func (in *Interp) builtin(name string, args []Value, c *ssa.CallCommon) Value {
 				return IX(0)
 			}
 			return IX(int64(len(a.e)))
+		case *ChanV:
+			if a == nil {
+				return IX(0)
+			}
+			return IX(int64(len(a.q)))
 		}
 	case "cap":
 		switch a := args[0].(type) {
@@ -79,7 +84,7 @@ func (in *Interp) builtin(name string, args []Value, c *ssa.CallCommon) Value {
 				return &SliceV{obj: d.obj, off: d.off, len: nl, cap: d.cap}
 			}
 			node := zeroArr(d.obj.ew).Copy(IX(0), d.obj.node, d.off, d.len).Copy(d.len, sn, so, sl)
-			in.allocs = append(in.allocs, nl)
+			in.allocs = append(in.allocs, allocRec{IArith("*", nl, IntC(int64(maxInt(d.obj.ew, 8)/8))), "append"})
 			// modelling choice: the new capacity equals the needed length (Go guarantees only >=)
 			return &SliceV{obj: &ArrObj{node: node, ew: d.obj.ew}, off: IX(0), len: nl, cap: nl}
 		}
